@@ -245,7 +245,7 @@ theorem fsComp_spec (v6 : Bool) (bs : Bytes) :
     simp only
     have hlt := Rd.u8_lt hu
     obtain ⟨g1, g2⟩ := hg t r1
-    simp only [Bind.bind, Rd.bind] at g1 g2
+    simp only [Bind.bind] at g1 g2
     refine ⟨g1, ?_⟩
     intro a r h
     have := g2 a r h
